@@ -43,6 +43,9 @@ ITEMS = {
                     "files=['seed.in'])",
                     "install(bd, directory=Path('built', InstallRoot.datadir))"], {'seed.in': 's\n'},
                    {'datadir': ['built/gen/out.dat']}),
+    'dual-after-exe': (["dual = library('dual', ['dual.c'])", "exed = executable('progd', ['md.c'], libs=[dual])",
+                        "install(exed, dual)"], {'dual.c': 'int d;\n', 'md.c': 'int main(){}\n'},
+                       {'bindir': ['progd'], 'libdir': ['libdual.so', 'libdual.a']}),
     'exe-with-dep': (["dep = shared_library('libs/dep3', ['dep3.c'])",
                       "exe3 = executable('prog3', ['m3.c'], libs=[dep])", "install(exe3)"],
                      {'dep3.c': 'int d;\n', 'm3.c': 'int main(){}\n'},
@@ -89,7 +92,7 @@ def _shard(arg):
             cfg[cfgname] = os.path.join(base, 'my ' + cfgname)
         if 'prefix' not in cfg:
             cfg['prefix'] = os.path.join(base, 'pfx')
-        args = ['--%s=%s' % (k, v) for k, v in cfg.items()]
+        args = ['--%s=%s' % (k, v) for k, v in cfg.items()] + ['--enable-static']
         lines, files, want = [], {}, {}
         for it in subset:
             l, f, w = ITEMS[it]
